@@ -868,10 +868,19 @@ def check_resolved_by(facts, rep):
     def dk(t):
         return re.sub(r'\b_\d+\b', 'L', re.sub(r'loop\d+_\d+', 'L', re.sub(r'#(?:i\d+:)?\d+\.\d+', '', show(t, -1000)))).replace('&mut ', '').replace('&', '').replace('*', '')
     srcs, resolves, tests = set(), set(), set()
+    cursors = set()
     for p in SymEx(b, havoc_loops=True, max_paths=2000, inline=False).run():
         for (fid, bb_, l), v in p.state.loop_entry.items():
             if fid == 0 and strip(v)[0] == 'call' and strip(v)[1].split('::')[-1] == 'into_iter':
                 srcs.add(dk(strip(v)[2][0]))
+            v_ = strip(v)
+            if fid == 0 and v_[0] == 'call' and v_[1].split('::')[-1] == 'filter' and len(v_[2]) == 2 and strip(v_[2][1])[0] == 'closure' and re.match(r'^iter_mut\((deref(?:_mut)?\()?L(\.data)?\)?\)$', dk(v_[2][0])):
+                cb_ = facts.bodies.get(strip(v_[2][1])[1])
+                rr_ = {dk(q.ret) for q in SymEx(cb_).run() if q.end == 'return'} if cb_ is not None else set()
+                if rr_ and all(re.match(r'^Not\(is_resolved\(arg2\)\)$', x) for x in rr_):
+                    cursors.add('unresolved')
+                else:
+                    cursors.add('?')
         if p.end == 'backedge':
             for e in p.calls():
                 n = e.name.split('::')[-1]
@@ -883,6 +892,8 @@ def check_resolved_by(facts, rep):
     bits = r'iter\((deref\()?arg2\)?\)'
     if len(srcs) == 1 and re.match('^' + bits + '$', next(iter(srcs))) and resolves and all(re.match(r'^crossing_at_mut\(L, 0\)$', x) for x in resolves) and not tests:
         rep.ok('E7.T12-state-bits', inst, 'for r in s.iter() { l.crossing_at_mut(0).resolve(r) }')
+    elif len(srcs) == 1 and re.match('^' + bits + '$', next(iter(srcs))) and cursors == {'unresolved'} and resolves and all(re.match(r'^next\(L\)\.Some\.0$', x) for x in resolves) and not tests:
+        rep.ok('E7.T12-state-bits', inst, 'one cursor over the unresolved crossings (filter !is_resolved), advanced once per bit')
     elif len(srcs) == 1 and re.match(r'^zip\(filter\(iter_mut\((deref(?:_mut)?\()?L\.data\)?\), closure<[^>]*>\), ' + bits + r'\)$', next(iter(srcs))) and not tests:
         rep.ok('E7.T12-state-bits', inst, 'bits zipped with the filtered unresolved crossings')
     elif len(srcs) == 1 and re.match(r'^zip\(iter_mut\((deref(?:_mut)?\()?L\.data\)?\), ' + bits + r'\)$|^zip\(' + bits + r', iter_mut\((deref(?:_mut)?\()?L\.data\)?\)\)$', next(iter(srcs))) and tests:
